@@ -13,6 +13,7 @@ import (
 	"crypto/rsa"
 	"crypto/tls"
 	"crypto/x509"
+	"crypto/x509/pkix"
 	"encoding/base64"
 	"encoding/json"
 	"encoding/pem"
@@ -27,6 +28,7 @@ import (
 	"sync"
 	"time"
 
+	"github.com/go-chi/chi/v5"
 	"go.step.sm/crypto/jose"
 	"go.step.sm/crypto/minica"
 	"go.step.sm/crypto/randutil"
@@ -44,20 +46,25 @@ import (
 )
 
 type Env struct {
-	ca     *fixture.CA
-	rec    *Recorder
-	fdb    *faultDB
-	srv    *httptest.Server
-	extra  map[string]any // per-operation prerequisites
-	closer []func()
+	// real: the authority sits behind the handler ca.New / Init assembled (realenv.go)
+	real    bool
+	handler http.Handler
+	base    context.Context
+	linked  *linkedDB // set for Var "linked": the store package authority must prefer
+	ca      *fixture.CA
+	rec     *Recorder
+	fdb     *faultDB
+	srv     *httptest.Server
+	extra   map[string]any // per-operation prerequisites
+	closer  []func()
 }
 
 func (e *Env) Close() {
-	for _, f := range e.closer {
-		f()
-	}
-	if e.ca != nil {
+	if e.ca != nil && !e.real {
 		e.ca.Close()
+	}
+	for i := len(e.closer) - 1; i >= 0; i-- {
+		e.closer[i]()
 	}
 	if e.srv != nil {
 		e.srv.Close()
@@ -107,19 +114,42 @@ func hookCertType(k *Case) string {
 			return "X509"
 		}
 		return "SSH"
+	case "lower": // the issued type in another spelling: not one of the names the code knows
+		if ssh {
+			return "ssh"
+		}
+		return "x509"
 	}
 	return "ALL"
 }
 
+// hookKind spells the kind attribute: as the code knows it, or (ct=kindlower) in lower case.
+func hookKind(k *Case, kind string) string {
+	if k.CT == "kindlower" {
+		return strings.ToLower(kind)
+	}
+	return kind
+}
+
 func newEnv(k *Case) (*Env, error) {
+	if k.Var == "real" {
+		return newRealEnv(k)
+	}
 	e := &Env{rec: &Recorder{}, extra: map[string]any{}}
-	e.srv = webhookServer()
+	wantAuth := ""
+	switch {
+	case strings.HasSuffix(k.Var, "bearer"):
+		wantAuth = "Bearer verif-token"
+	case strings.HasSuffix(k.Var, "basic"):
+		wantAuth = "Basic " + base64.StdEncoding.EncodeToString([]byte("verif:pass"))
+	}
+	e.srv = webhookServer(hookSecretOK, wantAuth)
 	secret := hookSecretOK
 	if k.Var == "badhook" {
 		secret = "%%% not base64 %%%"
 	}
 	ct := hookCertType(k)
-	whs := append(hooks(e.srv.URL, "enrich", "ENRICHING", k.E, secret, ct), hooks(e.srv.URL, "authorize", "AUTHORIZING", k.A, secret, ct)...)
+	whs := append(hooks(e.srv.URL, "enrich", hookKind(k, "ENRICHING"), k.E, secret, ct), hooks(e.srv.URL, "authorize", hookKind(k, "AUTHORIZING"), k.A, secret, ct)...)
 	closed, release := closedAddr()
 	e.closer = append(e.closer, release)
 	// an https endpoint whose certificate the webhook client does not trust
@@ -160,9 +190,30 @@ func newEnv(k *Case) (*Env, error) {
 		e.Close()
 		return nil, err
 	}
+	clientAuth := func(l []*provisioner.Webhook) { // how the webhook client authenticates / which client it uses
+		for _, wh := range l {
+			switch {
+			case strings.HasSuffix(k.Var, "bearer"):
+				wh.BearerToken = "verif-token"
+			case strings.HasSuffix(k.Var, "basic"):
+				wh.BasicAuth.Username, wh.BasicAuth.Password = "verif", "pass"
+			case strings.HasSuffix(k.Var, "notlsauth"): // DoWithContext then builds its own client from a fresh transport, wrapped by the authority's wrapper
+				wh.DisableTLSClientAuth = true
+			}
+		}
+	}
+	clientAuth(whs)
 	extra := []authority.Option{
+		authority.WithTransportWrapper(func(t *http.Transport) http.RoundTripper {
+			t.DisableKeepAlives = true
+			return &faultTransport{rec: e.rec, base: t, closed: closed, untrusted: tr.untrusted, denyAll: k.Deny}
+		}),
 		authority.WithWebhookClient(&http.Client{Transport: tr, Timeout: 30 * time.Second}),
 		authority.WithX509CAService(&faultCAS{SoftCAS: soft, rec: e.rec}),
+	}
+	if k.Var == "linked" {
+		e.linked = &linkedDB{}
+		extra = append(extra, authority.WithAdminDB(e.linked))
 	}
 	yes := true
 	provs := provisioner.List{
@@ -170,9 +221,24 @@ func newEnv(k *Case) (*Env, error) {
 		&provisioner.ACME{Type: "ACME", Name: "acme", Options: &provisioner.Options{Webhooks: whs},
 			Challenges: []provisioner.ACMEChallenge{provisioner.HTTP_01}},
 	}
+	if k.Op == "signx5c" { // a less used provisioner type: tokens signed by a certificate that chains to a configured root
+		provs = append(provs, &provisioner.X5C{Type: "X5C", Name: "x5c", Options: &provisioner.Options{Webhooks: whs},
+			Roots: pem.EncodeToMemory(&pem.Block{Type: "CERTIFICATE", Bytes: mca.Root.Raw})})
+		e.extra["mca"] = mca
+	}
+	// a second provisioner of the same type with webhooks of its own: they must never be consulted
+	// for requests of the first (their calls would show up as unknown-webhook in the trace)
+	if otherJWK, err := jose.GenerateJWK("EC", "P-256", "ES256", "sig", "", 0); err == nil {
+		otherJWK.KeyID, _ = jose.Thumbprint(otherJWK)
+		opub := otherJWK.Public()
+		provs = append(provs, &provisioner.JWK{Type: "JWK", Name: "jwk-other", Key: &opub, Claims: &provisioner.Claims{EnableSSHCA: &yes},
+			Options: &provisioner.Options{Webhooks: append(hooks(e.srv.URL, "otherprov/enrich", "ENRICHING", 1, hookSecretOK, "ALL"),
+				hooks(e.srv.URL, "otherprov/authorize", "AUTHORIZING", 1, hookSecretOK, "ALL")...)}})
+	}
 	if k.Op == "scep" {
 		all := append(append([]*provisioner.Webhook{}, whs...), hooks(e.srv.URL, "challenge", "SCEPCHALLENGE", k.CH, secret, "ALL")...)
 		all = append(all, hooks(e.srv.URL, "notify", "NOTIFYING", k.N, secret, "ALL")...)
+		clientAuth(all[len(whs):])
 		sp := &provisioner.SCEP{Type: "SCEP", Name: "scep", MinimumPublicKeyLength: 2048, EncryptionAlgorithmIdentifier: 2,
 			Options: &provisioner.Options{Webhooks: all}}
 		if k.CH == 0 {
@@ -199,6 +265,9 @@ func newEnv(k *Case) (*Env, error) {
 			}
 			e.fdb = &faultDB{DB: d.DB, rec: e.rec}
 			d.DB = e.fdb
+			if e.linked != nil {
+				e.linked.local = d
+			}
 			return d
 		},
 	}
@@ -225,6 +294,23 @@ func newEnv(k *Case) (*Env, error) {
 		return nil, err
 	}
 	e.ca = ca
+	// enableAdmin: the provisioners were migrated into the admin database by this first start;
+	// "reboot" starts the authority once more (provisioners now come out of the database),
+	// "reload" re-reads them in process (what the admin API does after every change)
+	switch {
+	case strings.Contains(k.Var, "reboot"):
+		ca2, err := e.ca.Restart()
+		if err != nil {
+			e.Close()
+			return nil, err
+		}
+		e.ca = ca2
+	case strings.Contains(k.Var, "reload"):
+		if err := e.ca.Auth.ReloadAdminResources(context.Background()); err != nil {
+			e.Close()
+			return nil, err
+		}
+	}
 	return e, nil
 }
 
@@ -240,6 +326,21 @@ type httpResp struct {
 	body   map[string]any
 }
 
+var (
+	routerOnce sync.Once
+	router     http.Handler
+)
+
+func apiRouter() http.Handler {
+	routerOnce.Do(func() {
+		mux := chi.NewRouter()
+		mux.Route("/1.0", func(r chi.Router) { api.Route(r) })
+		mux.Group(func(r chi.Router) { api.Route(r) })
+		router = mux
+	})
+	return router
+}
+
 func (e *Env) do(q *httpReq) httpResp {
 	var buf bytes.Buffer
 	if q.body != nil {
@@ -249,9 +350,15 @@ func (e *Env) do(q *httpReq) httpResp {
 	if q.peer != nil {
 		r.TLS = &tls.ConnectionState{PeerCertificates: []*x509.Certificate{q.peer}}
 	}
-	r = r.WithContext(authority.NewContext(context.Background(), e.ca.Auth))
 	w := httptest.NewRecorder()
-	q.h(w, r)
+	if e.real { // the handler the TLS server would run, with the server's base context
+		r.Host = fixture.DNSName
+		e.handler.ServeHTTP(w, r.WithContext(mergedCtx{r.Context(), e.base}))
+	} else {
+		r = r.WithContext(authority.NewContext(context.Background(), e.ca.Auth))
+		// through the real route table, mounted as ca.CA.Init mounts it ("/1.0" and the root)
+		apiRouter().ServeHTTP(w, r)
+	}
 	out := httpResp{status: w.Code}
 	json.Unmarshal(w.Body.Bytes(), &out.body)
 	return out
@@ -445,6 +552,42 @@ func (e *Env) prepare(k *Case) (*httpReq, error) {
 		body.CsrPEM, body.OTT = api.NewCertificateRequest(csr), tok
 		return &httpReq{h: api.Sign, path: "/1.0/sign", body: body}, nil
 
+	case "signx5c":
+		mca := e.extra["mca"].(*minica.CA)
+		lk, err := ecdsa.GenerateKey(elliptic.P256(), rand.Reader)
+		if err != nil {
+			return nil, err
+		}
+		leaf, err := mca.Sign(&x509.Certificate{Subject: pkix.Name{CommonName: "x5c client"}, PublicKey: lk.Public(),
+			KeyUsage: x509.KeyUsageDigitalSignature, ExtKeyUsage: []x509.ExtKeyUsage{x509.ExtKeyUsageClientAuth},
+			NotBefore: time.Now().Add(-time.Minute), NotAfter: time.Now().Add(time.Hour)})
+		if err != nil {
+			return nil, err
+		}
+		so := new(jose.SignerOptions).WithType("JWT").WithHeader("x5c", []string{
+			base64.StdEncoding.EncodeToString(leaf.Raw), base64.StdEncoding.EncodeToString(mca.Intermediate.Raw)})
+		sig, err := jose.NewSigner(jose.SigningKey{Algorithm: jose.ES256, Key: lk}, so)
+		if err != nil {
+			return nil, err
+		}
+		now := time.Now()
+		jti, _ := randutil.Hex(32)
+		sans := []string{cn}
+		if k.Chk == 1 {
+			sans = []string{"other.verif.test"}
+		}
+		tok, err := jose.Signed(sig).Claims(map[string]any{"iss": "x5c", "sub": cn, "sans": []string{cn}, "jti": jti,
+			"aud": fixture.Audience("/1.0/sign") + "#x5c/x5c", "iat": now.Add(ahead).Unix(), "nbf": now.Add(-time.Second).Unix(),
+			"exp": now.Add(5 * time.Minute).Unix()}).CompactSerialize()
+		if err != nil {
+			return nil, err
+		}
+		csr, _, err := fixture.CSR(cn, sans)
+		if err != nil {
+			return nil, err
+		}
+		return &httpReq{h: api.Sign, path: "/1.0/sign", body: &api.SignRequest{CsrPEM: api.NewCertificateRequest(csr), OTT: tok}}, nil
+
 	case "renew", "rekey":
 		crt, _, err := e.issueX509(cn)
 		if err != nil {
@@ -454,7 +597,11 @@ func (e *Env) prepare(k *Case) (*httpReq, error) {
 			return nil, fmt.Errorf("chk not supported for %s", k.Op)
 		}
 		if k.Op == "renew" {
-			return &httpReq{h: api.Renew, path: "/1.0/renew", peer: crt}, nil
+			path := "/1.0/renew"
+			if k.Var == "legacy" { // the old name of the route, mounted at the root
+				path = "/re-sign"
+			}
+			return &httpReq{h: api.Renew, path: path, peer: crt}, nil
 		}
 		csr, _, err := fixture.CSR(cn, []string{cn})
 		if err != nil {
